@@ -567,13 +567,28 @@ def add_mul_wallace(
     labels_a = []
     labels_b = []
     shift = 0
+    last_a = max(i for i in range(n + m) if c[i][0] != PLACEHOLDER_STR)
+    last_b = max(i for i in range(n + m) if c[i][1] != PLACEHOLDER_STR)
+    zero = None
     for i in range(n + m):
+        # an empty position inside a row must keep its weight: fill it with zero
+        if zero is None and (
+            (i < last_a and c[i][0] == PLACEHOLDER_STR)
+            or (len(labels_b) > 0 and i < last_b and c[i][1] == PLACEHOLDER_STR)
+        ):
+            zero = add_gate_from_tt(
+                circuit, input_labels_a[0], input_labels_a[0], '0000'
+            )
         if c[i][0] != PLACEHOLDER_STR:
             labels_a.append(c[i][0])
+        elif i < last_a:
+            labels_a.append(zero)
         if c[i][1] != PLACEHOLDER_STR:
             labels_b.append(c[i][1])
         elif len(labels_b) == 0:
             shift += 1
+        elif i < last_b:
+            labels_b.append(zero)
 
     return reverse_if_big_endian(
         add_sum_two_numbers_with_shift(circuit, shift, labels_a, labels_b)[: n + m],
